@@ -231,7 +231,7 @@ def rt_numeric_seq(n: int, a: int, b: int, c: int, tup: bool, wrap: int) -> bool
     compared by numeric value
 
     pre: 1 <= n <= 3 and 0 <= a < len(NUM_MENU) and 0 <= b < len(NUM_MENU) and 0 <= c < len(NUM_MENU)
-    pre: 0 <= wrap <= 2 and _fix("a", a) and _fix("n", n) and _fix("wrap", wrap)
+    pre: 0 <= wrap <= 2 and _fix("a", a) and _fix("n", n) and _fix("wrap", wrap) and _fix("c", c)
     pre: a in FIXED.get("menu", NUM_IDX) and b in FIXED.get("menu", NUM_IDX) and c in FIXED.get("menu", NUM_IDX)
     post: __return__ == True
     """
